@@ -453,6 +453,51 @@ func Run(r *fw.Run) {
 	// virtual logs of up to 2^62 identical records: provers and checkers against RFC 6962 proofs computed
 	// independently, for sizes around and just above every power of two
 	c09.HugeLogs(r)
+	proofLengths(r)
+}
+
+// proofLengths hands the checkers proofs of every length 0..200 (and a few far longer ones), made of
+// arbitrary hashes, for small and huge claimed sizes: a proof can be as long as the sender likes, and the
+// answer must be the reference's (a refusal, unless the length happens to fit), never a crash.
+func proofLengths(r *fw.Run) {
+	l := fw.NewLocal()
+	defer r.Merge(l)
+	var th, h, x tlog.Hash
+	th[0], h[1], x[2] = 1, 2, 3
+	lens := []int{1000, 4096, 65536}
+	for n := 0; n <= 200; n++ {
+		lens = append(lens, n)
+	}
+	tuples := [][2]int64{{1, 0}, {2, 1}, {2, 0}, {3, 1}, {7, 3}, {8, 7}, {1 << 20, 5}, {1<<40 + 1, 1 << 39}, {1 << 62, 1<<62 - 1}, {1<<63 - 1, 1}}
+	r.Bounds["proof_lengths"] = fmt.Sprintf("%d lengths (0..200, 1000, 4096, 65536) x %d (size, index) pairs x {record, tree}, arbitrary hashes", len(lens), len(tuples))
+	for _, n := range lens {
+		p := make([]tlog.Hash, n)
+		for i := range p {
+			p[i] = x
+			p[i][5] = byte(i)
+		}
+		for _, tu := range tuples {
+			for _, kind := range []string{"record", "tree"} {
+				t, idx := tu[0], tu[1]
+				if kind == "tree" {
+					idx++ // the older tree's size
+					if idx > t {
+						continue
+					}
+				}
+				l.States++
+				l.Execs++
+				l.Transitions++
+				msg, acc := agree(kind, p, t, th, idx, h)
+				if acc {
+					l.Outcomes[kind+":long-proof-accepted"]++
+				}
+				if msg != "" {
+					r.Violation(fmt.Sprintf("prooflen:%s:%d:%d:%d", kind, n, t, idx), msg, mk(kind, 0, 0, p, t, th, idx, h, fmt.Sprintf("proof of %d arbitrary hashes", n)))
+				}
+			}
+		}
+	}
 }
 
 // sentinelWorld is a second closed world built around the zero hash: base hashes {zero, a, b}, every
